@@ -347,7 +347,7 @@ pub mod verif {
                     ClientPacket(Box::new(shadowsocks::udp::DatagramPacketCodec::new(SessionCodec::new(
                         Context::new(Mode::Client, None, key, identity_keys),
                         AEADCipherCodec::new(kind),
-                    ))))
+                    ), kind.is_aead_2022())))
                 }
                 CipherKind::Unknown => anyhow::bail!("unknown cipher kind"),
                 _ => {
@@ -356,7 +356,7 @@ pub mod verif {
                     ClientPacket(Box::new(shadowsocks::udp::DatagramPacketCodec::new(SessionCodec::new(
                         Context::new(Mode::Client, None, key, identity_keys),
                         AEADCipherCodec::new(kind),
-                    ))))
+                    ), kind.is_aead_2022())))
                 }
             },
             Trojan => ClientPacket(Box::new(trojan::udp::ClientCodec::new(c.password.as_bytes(), Socks5CommandType::UdpAssociate as u8, addr.clone()))),
